@@ -121,6 +121,16 @@ mut("c15-revert-append", "C15", BV, "        self._assign_taxa_op_result(self.ad
 mut("c15-trange-not-scaled", "C15", BV, "        out = numpy.ptp(self._mat, axis = self.taxa_axis)    # get range\r\n        if unscale:", "        out = numpy.ptp(self._mat, axis = self.taxa_axis)    # get range\r\n        if unscale and self.ntaxa != 4:", "trange(unscale=True) left on the stored scale for 4 taxa")
 mut("c15-delete-restandardise-bug", "C15", BV, "        mat = self.unscale()\r\n", "        mat = self.unscale() if self.ntaxa != 5 else self.mat\r\n", "a non-mutating taxa op re-standardises the already scaled values for 5 taxa", count=0)
 
+# ---------------------------------------------------------------- C10
+GM = "pybrops/model/gmod/DenseAdditiveLinearGenomicModel.py"
+mut("c10-revert-afreq", "C10", "pybrops/popgen/gmat/DensePhasedGenotypeMatrix.py", "        out = self._mat.sum((self.phase_axis,self.taxa_axis)) / (self.ploidy * self.ntaxa)", "        out = (1.0 / (self.ploidy * self.ntaxa)) * self._mat.sum((self.phase_axis,self.taxa_axis))", "reverts fix 7da493dc for phased matrices")
+mut("c10-usl-branches-swapped", "C10", GM, "            p > 0.0,            # +allele: 1 if we have at least one +allele\r\n            p >= 1.0            # -allele: 1 if we have fixation for -allele", "            p >= 1.0,\r\n            p > 0.0", "usl uses the lsl conditions")
+mut("c10-lsl-strict", "C10", GM, "            p >= 1.0,           # +allele: 1 if we have fixation for +allele", "            p > 1.0,", "lsl never sees a fixed favourable allele", count=0)
+mut("c10-ploidy-dropped", "C10", GM, "        out = (float(ploidy) * self.u_a * uslgeno).sum(0)", "        out = (self.u_a * uslgeno).sum(0)", "usl forgets the ploidy factor")
+mut("c10-intercept-omitted", "C10", GM, "            # add location to usl\r\n            # (1,t) --ravel--> (t,)\r\n            # (t,) + (t,) -> (t,)\r\n            out += location.ravel()", "            pass", "usl(unscale=True) without the intercept", count=0)
+mut("c10-mutation-in-meiosis", "C10", "pybrops/breed/prot/mate/util.py", "        gamete[i,stix:] = geno[phase,s,stix:]\n", "        gamete[i,stix:] = geno[phase,s,stix:]\n        if len(sel) == 7 and i == 3: gamete[i,0] = 1 - gamete[i,0]\n", "a new allele appears in the fourth gamete of batches of seven")
+mut("c10-usl-ndarray-rounding", "C10", GM, "            p = gtobj.sum(0) / (ploidy * gtobj.shape[0])            # get allele frequencies (exactly 1.0 at fixation)", "            p = (1.0 / (ploidy * gtobj.shape[0])) * gtobj.sum(0)", "reverts the fix in the ndarray branches", count=4)
+
 
 def run_one(m, runs, tier_args=()):
     scratch = "/dev/shm/pybrops-mut-%s-%d" % (m["id"], os.getpid())
@@ -130,6 +140,9 @@ def run_one(m, runs, tier_args=()):
         shutil.copytree("/repo/pybrops", os.path.join(scratch, "pybrops"))
         path = os.path.join(scratch, m["file"])
         src = open(path, newline='').read()
+        if "\r\n" in src and "\r" not in m["old"] and "\n" in m["old"]:
+            # CRLF source file: express the mutant in the file's line endings
+            m = dict(m, old=m["old"].replace("\n", "\r\n"), new=m["new"].replace("\n", "\r\n"))
         if src.count(m["old"]) < 1 or (m["count"] and src.count(m["old"]) != m["count"]):
             return "BAD-MUTANT (old text occurs %d times)" % src.count(m["old"]), ""
         open(path, "w", newline="").write(src.replace(m["old"], m["new"]))
